@@ -66,8 +66,9 @@ CHECK_DEADLOCK FALSE
         if st is not None:
             opts["seektable"] = st
         for frames in ((40, 48) if t == "quick" else (16, 33, 40, 48, 64)):
-            jobs.append({"fe": fe, "channels": rnd.choice([1, 2]), "bps": rnd.choice([8, 16]), "frames": frames, "declared": declared,
-                         "every_byte": True, "signal": rnd.choice(["walk", "noise", "sine"]), "seed": rnd.randint(1, 9999), "opts": opts})
+            # depths / rates the frame header has no code of its own for come from STREAMINFO, which an interrupted encode does have
+            jobs.append({"fe": fe, "channels": rnd.choice([1, 2]), "bps": rnd.choice([8, 16, 13, 17]), "rate": rnd.choice([44100, 96001, 1, 700001]),
+                         "frames": frames, "declared": declared, "every_byte": True, "signal": rnd.choice(["walk", "noise", "sine"]), "seed": rnd.randint(1, 9999), "opts": opts})
     # the caller supplies more (or less) than it declared, in chunks, and dies at the first refused write:
     # no frame that crosses the declared total may have reached the output
     for fe, st in itertools.product(("byte-le", "sample", "channel"), sts):
